@@ -1,3 +1,6 @@
+mod c34;
+mod util;
+
 fn main() {
-    vmon::run_main(&[]);
+    vmon::run_main(&[("C34", c34::run)]);
 }
